@@ -98,6 +98,12 @@ def rand_graph(rng, nstructs=None, shape=None, domain_ref=False):
             members.append((mn, ts))
         types[name] = members
     primary = names[0] if rng.random() < 0.8 else rng.choice(names)
+    if n >= 2 and rng.random() < 0.08:
+        # two different structs with identical member lists
+        a, b = rng.sample(range(n), 2)
+        if a > b:
+            a, b = b, a
+        types[names[a]] = list(types[names[b]])
     if domain_ref and rng.random() < 0.06:
         # a message struct that references the domain struct type itself
         host = rng.choice(names)
@@ -170,6 +176,9 @@ def rand_string(rng):
     r = rng.random()
     if r < 0.2:
         return ""
+    if r < 0.27:
+        # lengths around one word, the short-string limit and the Keccak rate
+        return "".join(chr(rng.randint(0x21, 0x7e)) for _ in range(rng.choice([31, 32, 33, 55, 56, 64, 135, 136, 137, 271, 272, 273])))
     if r < 0.6:
         return "".join(chr(rng.randint(0x20, 0x7e)) for _ in range(rng.randint(1, 40)))
     if rng.random() < 0.12:
@@ -210,7 +219,7 @@ def rand_value_tree(rng, types, type_string, depth, budget):
     if k == "string":
         return json.dumps(rand_string(rng), ensure_ascii=rng.random() < 0.5)
     if k == "bytes":
-        n = rng.choice([0, 1, 2, 31, 32, 33, 64, 100, rng.randint(0, 300)])
+        n = rng.choice([0, 1, 2, 31, 32, 33, 64, 100, 135, 136, 137, 272, rng.randint(0, 300)])
         return '"0x%s"' % hex_case(rng, rand_bytes(rng, n).hex())
     if k == "bytesN":
         b = rand_bytes(rng, t[1]) if rng.random() < 0.8 else rng.choice([bytes(t[1]), b"\xff" * t[1], b"\x00" * (t[1] - 1) + b"\x01"])
@@ -226,6 +235,10 @@ def rand_value_tree(rng, types, type_string, depth, budget):
             n = 0
         else:
             n = rng.choice([0, 1, 1, 2, 3])
+            if eip712.parse_type(t[1])[0] not in ("struct", "array") and rng.random() < 0.15:
+                # element counts around the hash function's block (136 bytes = 4.25 words) and other powers of two
+                n = rng.choice([4, 5, 8, 15, 16, 17, 31, 32, 33, 64, 65])
+                budget.n -= n
         return [rand_value_tree(rng, types, t[1], depth - 1, budget) for _ in range(n)]
     members = types[t[1]]
     return {mn: rand_value_tree(rng, types, ts, depth - 1, budget) for mn, ts in members}
